@@ -298,7 +298,7 @@ func TestVerifPoolLin(t *testing.T) {
 	out := vNewOut(env, "poollin")
 	runs := int64(200)
 	if env.Tier == "thorough" {
-		runs = 20000
+		runs = 60000
 	}
 	for _, idx := range env.vCases(runs) {
 		rng := vNewRand(env.Seed, "lin", idx)
